@@ -1275,7 +1275,7 @@ def gen_multi(tier, rng):
     for c in _two_field_cases(3 if big else 2, mem_same):
         yield c
         k += 1
-        if c['fields'][0][2] == 64 and k % (40 if big else 320) == 0:
+        if c['fields'][0][2] == 64 and k % (160 if big else 320) == 0:
             yield {'k': 'multi', 'fields': [['idx', 0, 1 << 20], ['idx', 0, 1 << 20]], 'ops': c['ops']}
     # 2. different chunk sizes
     for c in _two_field_cases(2 if big else 1, [[['idx', 0, 2], ['idx', 0, 3]], [['idx', 0, 3], ['idx', 0, 1]]]):
@@ -1286,7 +1286,7 @@ def gen_multi(tier, rng):
     for c in _two_field_cases(2 if big else 1, h5specs):
         yield c
         k += 1
-        if c['fields'][0][2] == 64 and k % (20 if big else 160) == 0:
+        if c['fields'][0][2] == 64 and k % (80 if big else 160) == 0:
             yield {'k': 'multi', 'fields': [['idx', 1, 1 << 20], ['idx', 1, 1 << 20]], 'ops': c['ops']}
     # 4. two plain fields / a plain and an indexed field
     ta = [[0, 'p', [1, 2]], [0, 'p', [3]], [0, 'c']]
